@@ -108,16 +108,33 @@ def to_float_items(glyphs, k):
              "t": g["t"], "m": (1, 0, 0, 1)} for g in glyphs]
 
 
-def analyze(glyphs, la, bbox, k):
-    from pdfminer.layout import LTAnno, LTChar, LTTextBox, LTTextGroup, LTTextLine
+def analyze(glyphs, la, bbox, k, nest=0):
+    """nest > 0: the glyphs are the content of a form XObject (nested `nest` deep) on a page that shows no glyph of its
+    own, analysed with all_texts=True: the documented grouping applies inside the figure just the same."""
+    from pdfminer.layout import LTAnno, LTChar, LTFigure, LTPage, LTTextBox, LTTextGroup, LTTextLine
 
     f = Fr(2) ** k
-    page, objs = G.mkpage(to_float_items(glyphs, k), tuple(float(Fr(v) * f) for v in bbox))
+    bb = tuple(float(Fr(v) * f) for v in bbox)
+    lap = {kk: (float(v) if isinstance(v, Fr) else v) for kk, v in la.items()}
+    if nest == 0:
+        page, objs = G.mkpage(to_float_items(glyphs, k), bb)
+        container = page
+    else:
+        page = LTPage(1, bb)
+        objs = [G.mkitem(s) for s in to_float_items(glyphs, k)]
+        container = page
+        for _ in range(nest):
+            fig = LTFigure("Fig", (bb[0], bb[1], bb[2] - bb[0], bb[3] - bb[1]), (1, 0, 0, 1, 0, 0))
+            container.add(fig)
+            container = fig
+        for o in objs:
+            container.add(o)
+        lap["all_texts"] = True
     idx = {id(o): i for i, o in enumerate(objs)}
-    page.analyze(G.mklaparams({kk: (float(v) if isinstance(v, Fr) else v) for kk, v in la.items()}))
+    page.analyze(G.mklaparams(lap))
     boxes = []
     bboxes = []
-    for b in page:
+    for b in container:
         if isinstance(b, LTTextBox):
             lines = []
             for ln in b:
@@ -135,7 +152,7 @@ def analyze(glyphs, la, bbox, k):
             return (type(g).__name__, tuple(gsig(m) for m in g))
         return ("box", g.index)
 
-    groups = tuple(gsig(g) for g in (page.groups or []))
+    groups = tuple(gsig(g) for g in (getattr(container, "groups", None) or []))
     return (tuple(boxes), groups), bboxes
 
 
@@ -143,8 +160,8 @@ def run_vertical(case, classes):
     glyphs, la, bbox = case["glyphs"], case["la"], case["bbox"]
     desc = lambda: "la=%r glyphs=%r" % ({k: str(v) for k, v in la.items()}, [(str(g["x"]), str(g["y"]), str(g["w"]), str(g["h"]), g["t"]) for g in glyphs])  # noqa: E731
     try:
-        sig0, bb0 = analyze(glyphs, la, bbox, 0)
-        sigk, bbk = analyze(glyphs, la, bbox, case["k"]) if case["k"] else (sig0, bb0)
+        sig0, bb0 = analyze(glyphs, la, bbox, 0, case.get("nest", 0))
+        sigk, bbk = analyze(glyphs, la, bbox, case["k"], case.get("nest", 0)) if case["k"] else (sig0, bb0)
     except Exception as e:
         return Outcome(classes, True, fail="analyze raised %s: %s; %s" % (type(e).__name__, e, desc()))
     if case["k"] and sigk != sig0:
@@ -175,8 +192,8 @@ def run_case(case):
         return Outcome(classes + ["nested-skipped"], False)
     lines, boxes, amb = model(glyphs, la)
     try:
-        sig0, bb0 = analyze(glyphs, la, bbox, 0)
-        sigk, bbk = analyze(glyphs, la, bbox, case["k"]) if case["k"] else (sig0, bb0)
+        sig0, bb0 = analyze(glyphs, la, bbox, 0, case.get("nest", 0))
+        sigk, bbk = analyze(glyphs, la, bbox, case["k"], case.get("nest", 0)) if case["k"] else (sig0, bb0)
     except Exception as e:
         return Outcome(classes, nt, fail="analyze raised %s: %s; la=%r glyphs=%r" % (type(e).__name__, e, la, glyphs))
     desc = lambda: "la=%r glyphs=%r" % ({k: str(v) for k, v in la.items()}, [(str(g["x"]), str(g["y"]), str(g["w"]), str(g["h"]), g["t"]) for g in glyphs])  # noqa: E731
@@ -463,14 +480,18 @@ def vertical_cases(draw):
         groups.append({gl[-1]["id"]})
     a = run(x0, n, top)
     gl += a
-    second = draw(st.sampled_from(["near", "far", "off"]))
+    second = draw(st.sampled_from(["near", "far", "off", "staggered-within", "staggered-beyond"]))
     if second == "off":
         groups.append({g["id"] for g in a})
     else:
-        # on the other side of the run than the stray glyph
-        b = run(x0 - side * (2 * w if second == "near" else 12 * w), n, top)
+        # on the other side of the run than the stray glyph; "staggered": a close run of the same length shifted
+        # vertically (up or down), so that its top, bottom and centre all differ from the first run's by the same
+        # amount: within line_margin * width the two are aligned neighbours, beyond it they are not
+        tol = la["line_margin"] * w
+        dy = {"staggered-within": tol / 2, "staggered-beyond": tol + h}.get(second, Fr(0)) * draw(st.sampled_from([1, -1]))
+        b = run(x0 - side * (12 * w if second == "far" else 2 * w), n, top + dy)
         gl += b
-        if second == "near":
+        if second in ("near", "staggered-within"):
             groups.append({g["id"] for g in a + b})
         else:
             groups += [{g["id"] for g in a}, {g["id"] for g in b}]
@@ -485,6 +506,9 @@ def cases(draw, kind):
         kind = "vertical"
     c = draw({"run": pair_cases(), "stack": stack_cases(), "column": column_cases(), "vertical": vertical_cases()}[kind])
     c["k"] = draw(st.sampled_from([0, 0, 1, -1, 3, -3, 6, -6, 2]))
+    c["nest"] = draw(st.sampled_from([0, 0, 0, 1, 2]))
+    if c["nest"]:
+        c.setdefault("tags", []).append("in-figure:%d" % c["nest"])
     c["bbox"] = (0, 0, 612, 792)
     return c
 
